@@ -616,6 +616,10 @@ class Randomizer(RandIF):
             for rs in ri.randsets():
                 for f in rs.all_fields():
                     f.dispose()
+                    # A call that fails leaves the rand sets it did not reach 
+                    # flagged as solved-for: a later free-standing call that
+                    # only refers to such a field would overwrite it
+                    f.set_used_rand(False, 0)
                     if hasattr(f.parent, "sum_expr_btor"):
                         # Element of a list: drop the list's cached sum/product nodes
                         f.parent.sum_expr_btor = None
